@@ -11,7 +11,7 @@ is not yet set up never discloses any secret.
 Model: `VlsModel/Model/Enforcement.lean` (`step` on `Sys` = in-memory channel + persisted copy).
 `Out.secret = some k`  : the reply contains the per-commitment secret of holder commitment `k`.
 `Out.validated = some m`: the request's validation of holder commitment `m` succeeded, which in the
-model requires `policyOk = true` and `sigsValid = true` (the latter is the harness-supplied fact
+model requires `policyOk = true` and `sigs = .valid` (the latter is the harness-supplied fact
 "the counterparty signatures verify on the recomposed transactions").
 All request-supplied numbers are covered (the release guards use checked arithmetic since 0078200).
 The hypothesis "the policy filter maps policy-revoke-new-commitment-signed to Error" is built into
@@ -179,15 +179,15 @@ theorem C01_guard_no_panic (c : Chan) (n : Nat) :
 /-! ### Non-vacuity: concrete histories -/
 
 /-- validate 0, activate, validate 1, revoke 1 discloses secret 0; the history justifies it -/
-example : ((runH shaF init [] [.setup, .validate 0 0 true true, .activate, .validate 1 1 true true,
+example : ((runH shaF init [] [.setup, .validate 0 0 .valid true, .activate, .validate 1 1 .valid true,
     .revoke 1]).2.head?.map (·.2.secret)) = some (some 0) := by decide
 
 /-- the same without the validation of 1 is refused -/
-example : ((runH shaF init [] [.setup, .validate 0 0 true true, .activate, .validate 1 1 false true,
+example : ((runH shaF init [] [.setup, .validate 0 0 .valid true, .activate, .validate 1 1 .invalid true,
     .revoke 1]).2.head?.map (·.2.res)) = some .errPolicy := by decide
 
 /-- old protocol: one request validates 1 and discloses 0 -/
-example : ((runH shaF init [] [.setup, .hValidate 4 0 0 true true, .hValidate 4 1 1 true true]).2.head?.map
+example : ((runH shaF init [] [.setup, .hValidate 4 0 0 .valid true, .hValidate 4 1 1 .valid true]).2.head?.map
     (fun e => (e.2.secret, e.2.validated))) = some (some 0, some 1) := by decide
 
 end VlsModel.Props.C01
